@@ -12,6 +12,7 @@ import KojenVerif.Model.PyQueue
 import KojenVerif.Model.Conc
 import KojenVerif.Model.Engine
 import KojenVerif.Model.EngineSpec
+import KojenVerif.Lemmas.EngineWF
 /-
   Line-protocol driver: one JSON object per input line, one JSON object per output line.
   Run with `lake env lean --run Driver/Main.lean`.  The harness pipes the same inputs to the
@@ -585,6 +586,56 @@ def handle (j : Json) : Except String Json := do
                     | some ls => jStr (Spec.fileText ls)
                     | none => Json.null)])
     pure (Json.mkObj [("files", Json.arr out.toArray)])
+  | "engwf" => do
+    -- evaluates the hypotheses of the C16 / C17 theorems on a parsed template + model (after the load phase)
+    let smname ← getStr j "smname"
+    let globals := Engine.smDict smname (← getStr j "ns") (← getStr j "author") (← getStr j "group") (← getStr j "brief")
+                  (← getStr j "dclspc") (← getStr j "pyif") (← getStr j "enums")
+    let t ← parseRows (← j.getObjVal? "tt")
+    let m : Spec.Model := { table := t, structNames := ← getStrs j "structNames", protoNames := ← getStrs j "protoNames", msgNames := ← getStrs j "msgNames" }
+    let files ← (← (← j.getObjVal? "files").getArr?).toList.mapM (fun f => do
+      let items ← (← (← f.getObjVal? "items").getArr?).toList.mapM parseItem
+      pure items)
+    let first := (t.head?.map (·.src)).getD (Engine.T "NO TT PRESENT!")
+    let st0 := [(Engine.T "<<<STATE_0>>>", first), (Engine.T "<<<state_0>>>", Str.camelSmall first)]
+    let nameKinds : List Spec.Kind := [.ps, .pe, .pa, .pg]
+    let chunksFor (k : Spec.Kind) (items : List Spec.Item) : List Engine.Chunk :=
+      items.foldr (fun it acc =>
+        match it with
+        | .block k' ws body =>
+          if k' == k then
+            Engine.Chunk.block (Spec.delim ws (Spec.kw k ++ Engine.T "_BEGIN")) (body.map Spec.BItem.render) (Spec.delim ws (Spec.kw k ++ Engine.T "_END")) :: acc
+          else (match acc with
+            | Engine.Chunk.plain ls :: rest => Engine.Chunk.plain (it.render ++ ls) :: rest
+            | _ => Engine.Chunk.plain it.render :: acc)
+        | _ => (match acc with
+            | Engine.Chunk.plain ls :: rest => Engine.Chunk.plain (it.render ++ ls) :: rest
+            | _ => Engine.Chunk.plain it.render :: acc)) []
+    let mut uItems := 0
+    let mut uOk := 0
+    let mut blocks := 0
+    let mut blocksOk := 0
+    let mut chunks := 0
+    let mut chunksOk := 0
+    for items0 in files do
+      let items := Spec.load (globals ++ st0) items0
+      for it in items do
+        match it with
+        | .b _ | .cond _ _ _ =>
+          uItems := uItems + 1
+          if Engine.uItemOKB it then uOk := uOk + 1
+        | .block k _ body =>
+          if nameKinds.contains k then
+            blocks := blocks + 1
+            if Engine.blockOKB (Spec.elements m k) body then blocksOk := blocksOk + 1
+        | _ => pure ()
+      for k in nameKinds do
+        for c in chunksFor k items do
+          chunks := chunks + 1
+          if Engine.chunkOKB (Spec.kw k ++ Engine.T "_BEGIN") (Spec.kw k ++ Engine.T "_END") c then chunksOk := chunksOk + 1
+    let n (x : Nat) := Json.num (JsonNumber.fromNat x)
+    pure (Json.mkObj [("user_items", n uItems), ("user_items_ok", n uOk), ("blocks", n blocks), ("blocks_ok", n blocksOk),
+                      ("chunks", n chunks), ("chunks_ok", n chunksOk)])
   | "runref" => do
     let t ← parseRows (← j.getObjVal? "tt")
     let silent ← getBool j "silent"
